@@ -11,6 +11,12 @@ CHECKS = {
    text="Every ordered pair of layouts up to 4 (quick) / 5 (thorough) nodes is enumerated completely, plus tens of thousands (quick) / millions (thorough) of random larger pairs derived by edit scripts. Each plan is checked against the statement's predicates (bounds, identical shapes, disjoint destinations, sibling order, zero elsewhere, no-op on identical) and against an independent dynamic-programming reference for the words that must survive. Exhaustive below the bound, sampled above it; absence beyond the bound is not established.",
    note="Trusted: the harness's own shape equality, address computation and W* reference DP (independent of the repository's nodes_match/path_to_address). The survivor clause is demanded only where the surviving set does not depend on the edit script read into the pair (pure removal, pure addition, distinct leaf shapes).",
    design="2.C08"),
+ "C13": dict(
+   category="exploration",
+   technique="exhaustive enumeration of short strings + random lexeme/Unicode/corpus-mutation texts against tiling, round-trip and leaf-sequence invariants",
+   text="Every string up to length 5 (quick) / 6 (thorough) over a 24-symbol alphabet chosen to hit every tokenizer special case is enumerated completely; random lexeme sequences (one lexeme per token kind plus fusing and unterminated forms, odd Unicode) and mutated shipped sources extend it to long inputs. For each text the token tiling, the concatenation round-trip, the preparser's exactly-once attachment of trivia and the CST's leaf sequence and widths are checked exactly. Complete below the length bound for that alphabet, sampled above.",
+   note="Trusted: the harness's own walk of the green tree and its definition of 'neighbouring token' (the two non-trivia tokens around a trivia run). One open known finding (header trivia dropped) is tolerated in search and pinned by replay.",
+   design="2.C13"),
 }
 
 NOT_YET = {
